@@ -94,6 +94,12 @@ def statements(tier):
         ("insert_select", "src", ("isnull", "k"), ("k", "v")),
         ("insert_select", "t", None, None),
         ("insert_select", "t", ("cmp", "k", "=", 1), None),
+        # INSERT ... SELECT whose source is a VALUES list (the count is the rows selected, not the tuples listed)
+        ("insert_values_select", ((7, "q", 70), (8, "r", 80), (9, None, 90), (8, "r", 80)), "where", 7),
+        ("insert_values_select", ((7, "q", 70), (8, "r", 80)), "where", 99),
+        ("insert_values_select", ((7, "q", 70), (7, "q", 70), (7, "q", 70)), "distinct", None),
+        ("insert_values_select", ((7, "q", 70), (8, "r", 80), (9, "s", 90)), "limit", 2),
+        ("insert_from_t_in_values", (1, 3, 99)),
     ]
     preds = predicates(tier)
     sets = SETS if tier != "quick" else SETS[:3]
@@ -135,6 +141,18 @@ def stmt_sql(s):
         sel = ", ".join(s[3]) if s[3] else "*"
         w = f" WHERE {R.sql(s[2])}" if s[2] is not None else ""
         return f"INSERT INTO t{cols} SELECT {sel} FROM {s[1]}{w}"
+    if k == "insert_values_select":
+        vals = ", ".join("(" + ", ".join(R.lit(c) for c in r) + ")" for r in s[1])
+        src = f"(VALUES {vals}) AS vv (k, v, n)"
+        if s[2] == "where":
+            return f"INSERT INTO t SELECT k, v, n FROM {src} WHERE k > {s[3]}"
+        if s[2] == "distinct":
+            return f"INSERT INTO t SELECT DISTINCT k, v, n FROM {src}"
+        if s[2] == "limit":
+            return f"INSERT INTO t SELECT k, v, n FROM {src} ORDER BY k LIMIT {s[3]}"
+    if k == "insert_from_t_in_values":
+        vals = ", ".join(f"({c})" for c in s[1])
+        return f"INSERT INTO t SELECT k, v, n FROM t WHERE k IN (SELECT column1 FROM (VALUES {vals}))"
     if k == "update":
         w = f" WHERE {R.sql(s[2])}" if s[2] is not None else ""
         return f"UPDATE t SET {R.set_sql(s[1])}{w}"
@@ -163,6 +181,18 @@ def model_step(rows, s):
         if s[3]:
             picked = [tuple(r[R.COLS.index(c)] if c in s[3] else None for c in R.COLS) for r in picked]
         return rows + picked, len(picked), ["number of rows inserted"]
+    if k == "insert_values_select":
+        src = list(s[1])
+        if s[2] == "where":
+            picked = [r for r in src if r[0] is not None and r[0] > s[3]]
+        elif s[2] == "distinct":
+            picked = sorted(set(src), key=repr)
+        else:
+            picked = sorted(src, key=lambda r: r[0])[: s[3]]
+        return rows + picked, len(picked), ["number of rows inserted"]
+    if k == "insert_from_t_in_values":
+        picked = [r for r in rows if r[0] is not None and r[0] in s[1]]
+        return rows + picked, len(picked), ["number of rows inserted"]
     if k == "update":
         new, n = R.update(rows, s[1], s[2])
         return new, n, ["number of rows updated", "number of multi-joined rows updated"]
@@ -181,6 +211,10 @@ def classify(s, affected):
         return f"cmd=INSERT,form=values{'_cols' if s[2] else ''},affected={z}"
     if k == "insert_select":
         return f"cmd=INSERT,form=select_{s[1]}{'_cols' if s[3] else ''},affected={z}"
+    if k == "insert_values_select":
+        return f"cmd=INSERT,form=select_from_values_{s[2]},affected={z}"
+    if k == "insert_from_t_in_values":
+        return f"cmd=INSERT,form=select_t_in_values,affected={z}"
     if k == "update":
         return f"cmd=UPDATE,affected={z}"
     if k == "delete":
@@ -284,6 +318,49 @@ def step(item, acc: core.Acc, tier):
     return tuple(_msort(exp_rows)) if after_rows == _msort(exp_rows) else None
 
 
+# ---- scripts through execute_string: one cursor per statement, each with its own status row and rowcount -------------------
+def script_case(item, acc: core.Acc, tier):
+    rows, stmts = item
+    fs, conn, raw = _env()
+    raw.execute("delete from db1.s1.t")
+    if rows:
+        raw.execute("insert into db1.s1.t values " + ", ".join("(" + ", ".join(R.lit(c) for c in r) + ")" for r in rows))
+    exp = []
+    cur_rows = list(rows)
+    for st in stmts:
+        cur_rows, n, names = model_step(cur_rows, st)
+        exp.append((n, names))
+    text = ";\n".join(stmt_sql(st) for st in stmts) + ";"
+    try:
+        cursors = list(conn.execute_string(text))
+        got = [(c.fetchall(), c.rowcount) for c in cursors]
+    except Exception as e:  # noqa: BLE001
+        got = ("err", type(e).__name__, str(e)[:120])
+    after_rows = _msort(raw.execute("select * from db1.s1.t").fetchall())
+    acc.count("evaluations")
+    acc.count("transitions", len(stmts))
+    acc.count("traces")
+    acc.obs((rows, stmts, got, after_rows))
+    acc.nontrivial(("script", rows, stmts))
+    rp = {"rows": rows, "script": stmts, "sql": text}
+    cls = "script=" + "+".join(classify(st, n).split(",")[0].split("=")[1] for st, (n, _x) in zip(stmts, exp))
+    if isinstance(got, tuple):
+        acc.violation("C04.no_exception", cls + f",exc={got[1]}", {"sql": text, "got": got}, rp)
+        return
+    if len(got) != len(stmts):
+        acc.violation("C04.script_cursors", cls + ",count", {"sql": text, "expected": len(stmts), "got": len(got)}, rp)
+        return
+    for i, ((status, rc), (n, names)) in enumerate(zip(got, exp)):
+        if names is None:
+            continue
+        if not (len(status) == 1 and status[0][0] == n and all(x == 0 for x in status[0][1:])):
+            acc.violation("C04.script_cursors", cls + f",status_of_statement_{i + 1}_of_{len(stmts)}", {"sql": text, "expected": n, "got": status}, rp)
+        if rc != n:
+            acc.violation("C04.script_cursors", cls + f",rowcount_of_statement_{i + 1}_of_{len(stmts)}", {"sql": text, "expected": n, "got": rc}, rp)
+    if after_rows != _msort(cur_rows):
+        acc.violation("C04.target_rows", cls + ",script", {"sql": text, "expected": _msort(cur_rows), "got": after_rows}, rp)
+
+
 # ---- DDL status messages (E2) -----------------------------------------------------------------------------------------
 DDL = [
     # (set-up statements, statement, expected status text)
@@ -377,6 +454,13 @@ def run(ctx: core.Ctx):
         d += 1
     for s in seen:
         ctx.acc.add("states", s)
+    # scripts: all ordered pairs and triples of the chained statements from three row sets, through execute_string
+    seqs = seq_statements()
+    scripts = [(rs, [a, b]) for rs in init[:3] for a in seqs for b in seqs]
+    if not ctx.quick:
+        scripts += [(init[3 % len(init)], [a, b, c]) for a in seqs[:6] for b in seqs[:6] for c in seqs[:6]]
+    ctx.pmap(script_case, scripts, recheck=False)
+    ctx.extra["scripts_through_execute_string"] = len(scripts)
     ctx.pmap(ddl_case, list(range(len(DDL))), recheck=False)
     ctx.extra["bound"] = f"depth {depth} from {len(init)} initial row sets; {len(sts)} statements at depth 1, {len(seq_statements())} chained"
     ctx.extra["frontier_left_unexpanded"] = len(frontier)
